@@ -47,9 +47,11 @@ ANCHORS = [
 ]
 SHARD_TIMEOUT = {"quick": 600, "thorough": 3600}
 
-BEHAVIOURS = ["ret", "read", "ignore", "stream2", "stream5", "raise", "http-pre", "http-post", "timeout", "sleep1", "sleep30", "none", "nonresp", "never", "big"]
+BEHAVIOURS = ["ret", "read", "ignore", "stream2", "stream5", "raise", "http-pre", "http-post", "timeout", "sleep1", "sleep30", "none", "nonresp", "never", "big",
+              "timeout-post", "raise-post", "cancel-post"]
 EXPECT = {"ret": 200, "read": 200, "ignore": 200, "stream2": 200, "stream5": 200, "raise": 500, "http-pre": 403, "http-post": 200,
-          "timeout": 504, "sleep1": 200, "sleep30": 200, "none": 500, "nonresp": 500, "big": 200}
+          "timeout": 504, "sleep1": 200, "sleep30": 200, "none": 500, "nonresp": 500, "big": 200,
+          "timeout-post": 200, "raise-post": 200, "cancel-post": 200}
 
 
 def shards(tier, seed):
@@ -155,6 +157,16 @@ def run_case(case: Case, rec):
             raise web.HTTPConflict(text="late")
         if beh == "timeout":
             raise asyncio.TimeoutError()
+        if beh in ("timeout-post", "raise-post", "cancel-post"):
+            # the failure strikes after the response has started: no second response may follow on the wire
+            resp = web.StreamResponse(headers=hdr)
+            await resp.prepare(request)
+            await resp.write(b"started")
+            if beh == "timeout-post":
+                raise asyncio.TimeoutError()
+            if beh == "raise-post":
+                raise RuntimeError("boom after start")
+            raise asyncio.CancelledError()
         if beh.startswith("sleep"):
             await asyncio.sleep(int(beh[5:]))
             return web.Response(text=f"id={idx}", headers=hdr)
